@@ -8,11 +8,11 @@ assign to them or call methods on them, and the fields of the property's struct 
 a pure function of the arguments and of these fields; a new variable, writer or field is state the
 model does not know of. The digest-valued `shape:` entry covers everything the call graph
 (resolved by go/types) reaches from the functions declared in the property's anchor files: per
-function, method (with receiver kind), package variable and constant, its numeric literals, the
+function, method (with receiver kind), package variable and constant, its numeric literals, its comparison operators, the
 package variables it reads and its writes through parameters or the receiver (including in-place
 `sort.*`/`copy`/`append`). The entries behind the digest are in `shape_expected.txt` and in a
 comment of the generated file. -/
-def stateC13 : List (String × String) := [("globals:stats", "ErrMismatchedSamples ErrSampleSize ErrSamplesEqual ErrZeroVariance MannWhitneyExactLimit MannWhitneyTiesExactLimit StdNormal _KDEBoundaryMethod_index _KDEKernel_index _LocationHypothesis_index inf nan quantileCIApproxThreshold"), ("globalwrites:stats", "MannWhitneyUTest:StdNormal.CDF"), ("fields:stats.StreamStats", "Count:uint Total:float64 Min:float64 Max:float64 mean:float64 meanOfSquares:float64 vM2:float64"), ("shape:C13", "n=8 fnv64a=a023e4d430abff85")]
+def stateC13 : List (String × String) := [("globals:stats", "ErrMismatchedSamples ErrSampleSize ErrSamplesEqual ErrZeroVariance MannWhitneyExactLimit MannWhitneyTiesExactLimit StdNormal _KDEBoundaryMethod_index _KDEKernel_index _LocationHypothesis_index inf nan quantileCIApproxThreshold"), ("globalwrites:stats", "MannWhitneyUTest:StdNormal.CDF"), ("fields:stats.StreamStats", "Count:uint Total:float64 Min:float64 Max:float64 mean:float64 meanOfSquares:float64 vM2:float64"), ("shape:C13", "n=8 fnv64a=8043c260bf3b702b")]
 
 /-- the source has exactly the package-level variables, writers and struct fields the model accounts for -/
 theorem state_C13 : holdsAll stateC13 = true := by decide +kernel
